@@ -40,17 +40,17 @@ static bool refMatch(const char *host, const char *v)
     return hl > vl && eqNoCase(host + hl - vl, v);          // any subdomain: host ends with ".domain"
 }
 
-static void domainAcl(const unsigned maxValues, const unsigned VLEN, const unsigned HLEN)
+static void domainAcl(const unsigned maxValues, const unsigned VLEN, const unsigned HLEN, const char vLetter = 'b', const char hLetter = 'B')
 {
     vf_quiet();
     cfgCount = (unsigned)vf_concretize(vf_range(1, maxValues, "nvalues"));
     char *vals[NVAL];
     for (unsigned i = 0; i < cfgCount; ++i) {
-        vals[i] = symbolicName(VLEN, true, "vlen", "vbyte", 'b');   // values over {a,b,.} (parse() lowercases anyway)
+        vals[i] = symbolicName(VLEN, true, "vlen", "vbyte", vLetter);   // values over {a,b,.} (parse() lowercases anyway)
         cfgTok[i] = xstrdup(vals[i]);                               // parse() takes its own copy and lowercases the token in place
     }
     cfgNext = 0;
-    char *host = symbolicName(HLEN, false, "hlen", "hbyte", 'B');   // host over {a,B,.}: exercises case-insensitivity
+    char *host = symbolicName(HLEN, false, "hlen", "hbyte", hLetter);   // host over {a,B,.}: exercises case-insensitivity
     ACLDomainData *acl = new ACLDomainData;
     acl->parse();
     vf_assert(!acl->empty(), "parsed values are kept");
@@ -66,4 +66,6 @@ static void domainAcl(const unsigned maxValues, const unsigned VLEN, const unsig
 }
 extern "C" void c41_two_values(void) { domainAcl(2, 2, 3); }
 extern "C" void c41_two_long_values(void) { domainAcl(2, 3, 3); }
+// names over {a,-,.}: '-' is the one host-name character that sorts below '.', which the splay ordering (matchDomainName) has to get right
+extern "C" void c41_hyphen(void) { domainAcl(2, 3, 3, '-', '-'); }
 extern "C" void c41_three_values(void) { domainAcl(3, 2, 3); }   // not in a tier: did not finish within 8 minutes together with the entry above
